@@ -130,7 +130,7 @@ func c16RuleSet(rng *rand.Rand, src string, names []string, fnNames []string) ma
 				case f == "Age":
 					items = append(items, fmt.Sprintf("%s=%d|%s", []string{"le", "ge", "lt", "gt", "eq"}[rng.Intn(5)], rng.Intn(9), m))
 				case rng.Intn(3) == 0:
-					items = append(items, []string{"int", "phone", "required"}[rng.Intn(3)]+"|"+m)
+					items = append(items, []string{"int", "phone", "required", "required"}[rng.Intn(4)]+"|"+m)
 				default:
 					items = append(items, fmt.Sprintf("to=%d~%d|%s", 1+rng.Intn(3), 1+rng.Intn(7), m))
 				}
@@ -195,7 +195,7 @@ func c16Case(res *core.Result, rng *rand.Rand, idx int) {
 	useFns := rng.Intn(3) != 0
 	if useFns {
 		for _, cand := range []struct{ name, class string }{
-			{"phone", "local+builtin"}, {"int", "local+builtin"}, {"g_both", "local+global"}, {"g_all", "local+global"}, {"email", "local+global+builtin"}, {"l_only", "local"}, {"required", "local+builtin"},
+			{"phone", "local+builtin"}, {"int", "local+builtin"}, {"g_both", "local+global"}, {"g_all", "local+global"}, {"email", "local+global+builtin"}, {"l_only", "local"}, {"required", "local+builtin"}, {"exist", "local+builtin"},
 		} {
 			if rng.Intn(3) == 0 {
 				m := "fn_local_" + cand.name
